@@ -8746,11 +8746,25 @@ fn u128_duration_nanos(nanos: u128) -> Duration {
 impl Deserialize for SystemTime {
     fn deserialize(deserializer: &mut Deserializer<impl Read>) -> Result<Self, SavefileError> {
         let mut temp = deserializer.read_u128()?;
+        // Not every 128 bit value is a time the platform can represent (corrupt data).
+        let out_of_range = || SavefileError::GeneralError {
+            msg: "SystemTime out of range".to_string(),
+        };
         if temp >= (1u128 << 127) {
             temp &= (1u128 << 127) - 1; //Before UNIX Epoch
-            return Ok(SystemTime::UNIX_EPOCH - u128_duration_nanos(temp));
+            if temp / 1_000_000_000 > u64::MAX as u128 {
+                return Err(out_of_range());
+            }
+            return SystemTime::UNIX_EPOCH
+                .checked_sub(u128_duration_nanos(temp))
+                .ok_or_else(out_of_range);
         } else {
-            return Ok(SystemTime::UNIX_EPOCH + u128_duration_nanos(temp));
+            if temp / 1_000_000_000 > u64::MAX as u128 {
+                return Err(out_of_range());
+            }
+            return SystemTime::UNIX_EPOCH
+                .checked_add(u128_duration_nanos(temp))
+                .ok_or_else(out_of_range);
         }
     }
 }
